@@ -5,6 +5,7 @@ Ops
   quals <key> <pseudo> <n> {k nv v..}                         TblFeature._qualifiers_to_str
   cdsfeat <table> <strand> <genome> <k> {s e frame}           the real CDSTblFeature of a one-transcript gene
   tblgene <table> <genome> <gene>                             the real TblGene: skeleton of every feature it yields
+  seed <seed|~>                                               is `random.seed(random_seed)` applied? (two exports equal)
   locustags <prefix> <step> <m> n1 .. nm                      collection_to_tbl over m collections: the gene locus tags
   coll <flavor> <table> <prefix> <step> <seed> <lab> <seqname> <genome> <genes>
                                                               collection_to_tbl text (twice with the same seed)
@@ -132,6 +133,19 @@ def impl_tbl_op(line):
             tg = W.TblGene(gene, "lab", "LT_5", table)
             feats = list(tg)
             return f"ok {len(feats)} " + " ".join(skeleton(f) for f in feats)
+        if op == "seed":
+            tok = tk.next()
+            seed = None if tok == "~" else int(tok)
+            coll = build_collection(dict(seqname="chr1", genome="ACGT" * 8, genes=[dict(
+                gtype=G.CODING, symbol="g", txs=[dict(ttype=G.CODING, strand="+", exons=[(2, 11)], cds=[(2, 11)],
+                                                      frame=0, shift=0)])]))
+            texts = []
+            for salt in "ab":
+                random.seed(f"{salt}{line}")          # unrelated generator state before each export
+                fh = io.StringIO()
+                W.collection_to_tbl([coll], fh, locus_tag_prefix="LT", submitter_lab_name="lab", random_seed=seed)
+                texts.append(fh.getvalue())
+            return "ok applied" if texts[0] == texts[1] else "ok ignored"
         if op == "locustags":
             prefix = G.dec(tk.next())
             step = tk.int()
